@@ -117,6 +117,16 @@ class Walker:
             return CLEAN if 0 <= c < M32 else DIRTY
         if isinstance(e, ast.Name):
             return self.env.get(e.id, UNKNOWN)
+        if isinstance(e, ast.BinOp) and isinstance(e.op, ast.BitAnd):
+            # (x >> k) & M with M < 2^(32-k) keeps only bits k .. 31 of x: the same as (x & 0xFFFFFFFF) >> k, whatever x is
+            for sh, mk in ((e.left, e.right), (e.right, e.left)):
+                m = _const(mk, self.mod.consts)
+                if isinstance(sh, ast.BinOp) and isinstance(sh.op, ast.RShift) and m is not None:
+                    k = _const(sh.right, self.mod.consts)
+                    if k is not None and 0 <= k < 32 and 0 <= m < (1 << (32 - k)):
+                        self.ev(sh.left)
+                        self.mod.shifts += 1
+                        return CLEAN
         if isinstance(e, ast.BinOp):
             l, r = self.ev(e.left), self.ev(e.right)
             op = e.op
